@@ -537,13 +537,29 @@ func (w *Writer) ForceSeal() (uint64, error) {
 		return w.writer.indexStart, nil
 	}
 
+	// Save any state we may need to rollback, like Append does. Without this a
+	// failed write or fsync would leave the writer marked as sealed (indexStart
+	// set) although no index was ever committed to the file, and a later
+	// ForceSeal would report that bogus index as done.
+	beforeBuf := w.writer.commitBuf
+	beforeCRC := w.writer.crc
+	beforeWriteOffset := w.writer.writeOffset
+	rollback := func() {
+		w.writer.commitBuf = beforeBuf
+		w.writer.crc = beforeCRC
+		w.writer.indexStart = 0
+		w.writer.writeOffset = beforeWriteOffset
+	}
+
 	// Seal the segment! We seal it by writing an index frame before we commit.
 	if err := w.appendIndex(); err != nil {
+		rollback()
 		return 0, err
 	}
 
 	// Write the commit frame
 	if err := w.appendCommit(); err != nil {
+		rollback()
 		return 0, err
 	}
 
